@@ -7,25 +7,34 @@
 (* every event.  A failing predicate is reported as a line                 *)
 (*      <<"T1", line, "Cxx:name">>                                         *)
 (* and the trace is always consumed to its end (POSTCONDITION Consumed).   *)
-(* Families are evaluated per weakly connected component; that the family  *)
-(* of a framework is the product of those of its components is theorem     *)
-(* Product of MCDung.                                                      *)
+(* Families are evaluated on the grounded reduct (Meta!FamByReduct: every   *)
+(* extension is the grounded extension plus an extension of the framework  *)
+(* restricted to the undecided arguments; MCDung ReductTheorem, TLAPS      *)
+(* proofs/ReductLemma) and per weakly connected component of that reduct   *)
+(* (theorem Product of MCDung, TLAPS proofs/ProductLemma).  Stage          *)
+(* extensions need not contain the grounded extension: their family is     *)
+(* evaluated on the components of the whole framework.                     *)
 (***************************************************************************)
 EXTENDS Meta, Cli, TLC, Json, IOUtils, SequencesExt, FiniteSetsExt
 Rec == ndJsonDeserialize(IOEnv.TRACE)
 
-VARIABLES l, af, ids, comps, famc
-vars == <<l, af, ids, comps, famc>>
+VARIABLES l, af, ids, comps, famc, gr, dead, scomps, sfamc
+vars == <<l, af, ids, comps, famc, gr, dead, scomps, sfamc>>
 
-Init == l = 1 /\ af = EmptyAF /\ ids = {} /\ comps = {} /\ famc = <<>>
+Init == l = 1 /\ af = EmptyAF /\ ids = {} /\ comps = {} /\ famc = <<>> /\ gr = {} /\ dead = {} /\ scomps = {} /\ sfamc = <<>>
 
 Pairs(seq) == {<<p[1], p[2]>> : p \in ToSet(seq)}
 
 (* ---- component-wise reference values ---- *)
-InFam(E, s)  == E \subseteq af.args /\ \A c \in comps : (E \cap c) \in famc[c][s]
-FamEmpty(s)  == \E c \in comps : famc[c][s] = {}
-CredC(s, A)  == ~FamEmpty(s) /\ \E c \in comps : \E E \in famc[c][s] : E \cap A # {}
-SkepC(s, A)  == FamEmpty(s) \/ \E c \in comps : \A E \in famc[c][s] : E \cap A # {}
+(* gr = grounded extension, dead = what it defeats, comps = components of the reduct; scomps / sfamc = components of the whole framework *)
+(* and their stage extensions                                                                                                       *)
+InFam(E, s)  == IF s = "STG" THEN E \subseteq af.args /\ \A c \in scomps : (E \cap c) \in sfamc[c]
+                ELSE E \subseteq af.args /\ E \cap (gr \cup dead) = gr /\ \A c \in comps : (E \cap c) \in famc[c][s]
+FamEmpty(s)  == IF s = "STG" THEN \E c \in scomps : sfamc[c] = {} ELSE \E c \in comps : famc[c][s] = {}
+CredC(s, A)  == IF s = "STG" THEN ~FamEmpty(s) /\ \E c \in scomps : \E E \in sfamc[c] : E \cap A # {}
+                ELSE ~FamEmpty(s) /\ (A \cap gr # {} \/ \E c \in comps : \E E \in famc[c][s] : E \cap A # {})
+SkepC(s, A)  == IF s = "STG" THEN FamEmpty(s) \/ \E c \in scomps : \A E \in sfamc[c] : E \cap A # {}
+                ELSE FamEmpty(s) \/ A \cap gr # {} \/ \E c \in comps : \A E \in famc[c][s] : E \cap A # {}
 
 Report(name, ok) == IF ok THEN TRUE ELSE PrintT(<<"T1", l, name>>)
 
@@ -148,6 +157,12 @@ JudgeCliBig(e) ==
                                               /\ (inv.kind = "DC" => W \cap A # {}) /\ (inv.kind = "DS" => W \cap A = {}))
        /\ inv.log = "off" => Report("C05:nothing_but_the_answer_when_logging_is_off", e.nlog = 0)
 
+(* C17 at the command line: the external solver failed at a call that was reached => non-zero exit status and no answer on stdout *)
+JudgeCliFault(e) ==
+  /\ Report("C17:cli_terminates", ~e.timeout)
+  /\ e.faulted => /\ Report("C17:cli_fault_exit_status_nonzero", e.exit # 0)
+                  /\ Report("C17:cli_fault_prints_no_answer", e.status = "" /\ ~e.wline)
+
 JudgeProblems(e) == Report("C05:problems_listed", e.exit = 0 /\ ToSet(e.listed) = Problems /\ Len(e.listed) = 21)
 
 Next ==
@@ -158,10 +173,15 @@ Next ==
         /\ af' = [args |-> ToSet(e.args), att |-> Pairs(e.att)]
         /\ ids' = Pairs(e.ids)
         \* "big" instances (thousands of arguments, C05): families are out of reach, only necessary conditions are judged
-        /\ comps' = IF "big" \in DOMAIN e THEN {} ELSE Components(af')
-        /\ famc' = IF "big" \in DOMAIN e THEN <<>> ELSE [c \in comps' |-> [s \in ToSet(e.sems) |-> FamFast(RestrictAF(af', c), s)]]
+        /\ gr' = IF "big" \in DOMAIN e THEN {} ELSE GroundedFast(af')
+        /\ dead' = AttackedBy(af', gr')
+        /\ comps' = IF "big" \in DOMAIN e THEN {} ELSE Components(RestrictAF(af', af'.args \ (gr' \cup dead')))
+        /\ famc' = IF "big" \in DOMAIN e THEN <<>>
+                   ELSE [c \in comps' |-> [s \in ToSet(e.sems) \ {"STG"} |-> FamFast(RestrictAF(af', c), s)]]
+        /\ scomps' = IF "STG" \in ToSet(e.sems) THEN Components(af') ELSE {}
+        /\ sfamc' = [c \in scomps' |-> FamFast(RestrictAF(af', c), "STG")]
      ELSE
-        /\ UNCHANGED <<af, ids, comps, famc>>
+        /\ UNCHANGED <<af, ids, comps, famc, gr, dead, scomps, sfamc>>
         /\ CASE e.ev = "q" -> IF e.kind = "SE" THEN JudgeSE(e) ELSE JudgeAcc(e)
              [] e.ev = "fault" -> JudgeFault(e)
              [] e.ev = "cc" -> JudgeCc(e)
@@ -169,6 +189,7 @@ Next ==
              [] e.ev = "agree" -> JudgeAgree(e)
              [] e.ev = "cli" -> IF "big" \in DOMAIN e THEN JudgeCliBig(e) ELSE JudgeCli(e)
              [] e.ev = "problems" -> JudgeProblems(e)
+             [] e.ev = "clifault" -> JudgeCliFault(e)
              [] OTHER -> TRUE
 
 Spec == Init /\ [][Next]_vars
